@@ -64,6 +64,33 @@ theorem stop_is_taken_first (s : St) (k : Nat) (g : Bool) (rest : List (Nat × B
       obtain ⟨a, b, _⟩ := graceful_enters_shutdown_lemma hq h1 hfl hcov f
       exact ⟨_, _, a, b.trans hfin⟩
 
+/-- **The accept thread's exit is not a stop command** (F8).  A worker whose connection channel has been
+closed by the exit of the accept thread (which drops its handles), with nothing queued and no `Stop`
+received yet, does not finish: the poll returns `Pending` with the task waker registered in the `Stop`
+channel, the connections in progress untouched, nothing answered. -/
+theorem accept_exit_is_not_a_stop (s : St) (hst : s.state = .available) (hc : Calm s) (hco : s.chanOpen = false)
+    (hqu : s.queue = []) (hq : s.stopQ = []) (ho : s.stopOpen = true) (hfl : s.fault = none) (f : Nat) :
+    (pollW (f + 1) s).finished = s.finished ∧ (pollW (f + 1) s).inflight = s.inflight ∧
+    (pollW (f + 1) s).stopWaker = true ∧ (pollW (f + 1) s).state = .available ∧ (pollW (f + 1) s).fault = none ∧
+    ∃ evs, (pollW (f + 1) s).log = s.log ++ evs ∧ ∀ e ∈ evs, e.isPR = true := by
+  obtain ⟨h1, h2, h3, h4, h5, h6, h7⟩ := arm_closed_waits (s := { s with stopWaker := true }) hst hc hco hqu hq ho
+  have hp : pollW (f + 1) s = (arm { s with stopWaker := true }).1 := by
+    simp only [pollW]; rw [body_nostop hq hfl, h1]; simp
+  rw [hp]
+  exact ⟨h2, h3, h4, h5, h6.trans hfl, h7⟩
+
+/-- … and a `Stop` that is found there (it arrived while this `poll` was already past its look at the
+`Stop` channel) is handled exactly like one found at the top of `poll`: the `None` arm of the
+`Available` loop is the `Stop` handler followed, if the worker goes on, by `self.poll(cx)`. -/
+theorem stop_found_after_accept_exit (s : St) (a : Nat × Bool) (rest : List (Nat × Bool)) (hq : s.stopQ = a :: rest) :
+    closedArm s = ((stopPhase s).1, !(stopPhase s).2) :=
+  closedArm_cons hq
+
+example : (run (init { n := 1, timeout := 5000, svcs := fun _ => {} }) [.conn 0, .poll 9, .closeChan, .poll 9, .poll 9]).finished = false ∧
+    (run (init { n := 1, timeout := 5000, svcs := fun _ => {} }) [.conn 0, .poll 9, .closeChan, .poll 9, .stop true, .poll 9]).state = .shutdown 1000 0 0 := by decide
+
+example : (run (init { n := 1, timeout := 5000, svcs := fun _ => {} }) [.conn 0, .poll 9, .pollY 9 [.stop true, .closeChan]]).state = .shutdown 1000 0 0 := by decide
+
 /-- **Graceful stop with connections in progress**: the poll that takes the `Stop` replies nothing
 and does not finish; the worker is in `Shutdown` with its first tick `Src.wkTickFirstMs` ahead and
 `start_from = now`; every queued (unreceived) connection has been *released* — the log gains exactly
@@ -178,16 +205,21 @@ def stepEvs (workers : List Nat) (g : Bool) (comp : Option Nat) (guard : String)
 
 /-- **The model's `Stop` handling is the source's** (T1, structural): the steps of the `Stop` arm of
 `handle_cmd`, in the order and under the guard read from server.rs on this run, produce exactly the
-events of the model; the command loop still leaves on `stopping`; `ServerHandle::stop` still sends
-its command before building the future. -/
+events of the model (for the order `srcWakeFirst` found in the source — either order of the first
+two steps is accepted); the command loop still leaves on `stopping`; `ServerHandle::stop` still
+sends its command before building the future. -/
 theorem source_shape (workers : List Nat) (g : Bool) (comp : Option Nat) :
-    stopEvs workers g comp = Src.hcStopOrder.flatMap (stepEvs workers g comp Src.hcAwaitGuard) ∧
+    stopEvs srcWakeFirst workers g comp = Src.hcStopOrder.flatMap (stepEvs workers g comp Src.hcAwaitGuard) ∧
     Src.srRunBreaksOnStopping = true ∧ Src.hsStopSendsEagerly = true := by
   refine ⟨?_, rfl, rfl⟩
-  simp [stopEvs, stepEvs, Src.hcStopOrder, Src.hcAwaitGuard, List.flatMap]
+  first
+    | (have hw : srcWakeFirst = true := by decide
+       rw [hw]; simp [stopEvs, stepEvs, Src.hcStopOrder, Src.hcAwaitGuard, List.flatMap])
+    | (have hw : srcWakeFirst = false := by decide
+       rw [hw]; simp [stopEvs, stepEvs, Src.hcStopOrder, Src.hcAwaitGuard, List.flatMap])
 
 /-- **The shape of every run that stops.**  Commands before the first `Stop` are handled in order;
-the `Stop` wakes the accept thread with `Stop`, sends `Stop` to every worker, (only if graceful)
+the `Stop` wakes the accept thread with `Stop` and sends `Stop` to every worker, (only if graceful)
 waits for every worker's reply channel, joins the accept thread, acks the completion; then `run`
 returns, dropping whatever is still in the channel. -/
 theorem stop_run_shape (s : St) (pre post : List Cmd) (g : Bool) (comp : Option Nat)
@@ -195,38 +227,34 @@ theorem stop_run_shape (s : St) (pre post : List Cmd) (g : Bool) (comp : Option 
     (h4 : ∀ c ∈ pre, ∀ idx, c = .workerFaulted idx → idx ∈ s.workers) :
     (runLoop s (pre ++ .stop g comp :: post)).returned = true ∧
     (runLoop s (pre ++ .stop g comp :: post)).log =
-      (runLoop s pre).log ++ stopEvs s.workers g comp ++ droppedAcks post ++ [.returned] :=
+      (runLoop s pre).log ++ stopEvs s.wakeFirst s.workers g comp ++ droppedAcks post ++ [.returned] :=
   runLoop_stop_shape s pre post g comp h1 h2 h3 h4
 
-/-- **Graceful waits (server)**: for every worker `w`, the events of a graceful `Stop` contain, in this
-order, `stopWorker w`, the `Stop` wake-up of the accept thread, `awaitWorker w`, `joinAccept`, the completion ack. -/
-theorem graceful_waits_server (workers : List Nat) (a w : Nat) (hw : w ∈ workers) :
-    [Ev.stopWorker w true, .wake .stop, .awaitWorker w, .joinAccept, .ack a].Sublist (stopEvs workers true (some a)) := by
-  unfold stopEvs ackEv
-  simp only [if_true]
+/-- **Graceful waits (server)**: whichever of the first two steps comes first, for every worker `w` the
+events of a graceful `Stop` contain, in this order, `stopWorker w`, `awaitWorker w`, `joinAccept`, the
+completion ack — and the accept thread's `Stop` wake-up before `joinAccept`. -/
+theorem graceful_waits_server (wf : Bool) (workers : List Nat) (a w : Nat) (hw : w ∈ workers) :
+    [Ev.stopWorker w true, .awaitWorker w, .joinAccept, .ack a].Sublist (stopEvs wf workers true (some a)) ∧
+    [Ev.wake .stop, .joinAccept, .ack a].Sublist (stopEvs wf workers true (some a)) := by
   have h1 : [Ev.stopWorker w true].Sublist (workers.map (Ev.stopWorker · true)) :=
     List.singleton_sublist.2 (List.mem_map.2 ⟨w, hw, rfl⟩)
   have h2 : [Ev.awaitWorker w].Sublist (workers.map Ev.awaitWorker) :=
     List.singleton_sublist.2 (List.mem_map.2 ⟨w, hw, rfl⟩)
-  have := ((h1.append (List.Sublist.refl [Ev.wake .stop])).append h2).append (List.Sublist.refl [Ev.joinAccept, Ev.ack a])
-  simpa using this
-
-/-- **Every worker has its `Stop` before the accept thread is told to stop** (F7): the `Stop` handling
-starts with `stopWorker w` for every worker, and no `stopWorker` comes after the accept thread's wake-up.
-So when the accept thread exits and thereby closes the workers' connection channels, `Stop` is already
-in every worker's stop channel — and a worker looks at that channel first (`stop_is_taken_first`). -/
-theorem workers_stopped_before_accept (workers : List Nat) (g : Bool) (comp : Option Nat) :
-    ∃ rest, stopEvs workers g comp = workers.map (.stopWorker · g) ++ .wake .stop :: rest ∧
-      ∀ w g', Ev.stopWorker w g' ∉ rest := by
-  refine ⟨(if g then workers.map .awaitWorker else []) ++ [.joinAccept] ++ ackEv comp, by simp [stopEvs], ?_⟩
-  intro w g'
-  cases g <;> cases comp <;> simp [ackEv]
+  have e : ([] : List Ev).Sublist [Ev.wake .stop] := List.nil_sublist _
+  have e1 : ([] : List Ev).Sublist (workers.map (Ev.stopWorker · true)) := List.nil_sublist _
+  have e2 : ([] : List Ev).Sublist (workers.map Ev.awaitWorker) := List.nil_sublist _
+  unfold stopEvs ackEv
+  cases wf <;> simp only [if_true, Bool.false_eq_true, if_false]
+  · exact ⟨by simpa using ((h1.append e).append h2).append (List.Sublist.refl [Ev.joinAccept, Ev.ack a]),
+      by simpa using ((e1.append (List.Sublist.refl [Ev.wake .stop])).append e2).append (List.Sublist.refl [Ev.joinAccept, Ev.ack a])⟩
+  · exact ⟨by simpa using ((e.append h1).append h2).append (List.Sublist.refl [Ev.joinAccept, Ev.ack a]),
+      by simpa using (((List.Sublist.refl [Ev.wake .stop]).append e1).append e2).append (List.Sublist.refl [Ev.joinAccept, Ev.ack a])⟩
 
 /-- **Forced does not wait (server)**: a forced `Stop` waits for no worker — only for the accept thread. -/
-theorem forced_does_not_wait_server (workers : List Nat) (comp : Option Nat) (w : Nat) :
-    Ev.awaitWorker w ∉ stopEvs workers false comp := by
+theorem forced_does_not_wait_server (wf : Bool) (workers : List Nat) (comp : Option Nat) (w : Nat) :
+    Ev.awaitWorker w ∉ stopEvs wf workers false comp := by
   unfold stopEvs ackEv
-  cases comp <;> simp
+  cases comp <;> cases wf <;> simp
 
 /-- **No dispatch after completion**: in both modes the accept thread has been joined (has exited —
 an exited accept loop accepts and dispatches nothing, `Model/Srv.lean`) before the completion is
@@ -237,7 +265,7 @@ theorem no_dispatch_after_completion (s : St) (pre post : List Cmd) (g : Bool) (
     ∃ l1 l2, (runLoop s (pre ++ .stop g (some a) :: post)).log = l1 ++ [.joinAccept, .ack a] ++ l2 ++ [.returned] ∧
       Ev.joinAccept ∉ l2 ∧ Ev.returned ∉ l2 := by
   obtain ⟨_, hl⟩ := runLoop_stop_shape s pre post g (some a) h1 h2 h3 h4
-  refine ⟨(runLoop s pre).log ++ (s.workers.map (.stopWorker · g) ++ [.wake .stop] ++ (if g then s.workers.map .awaitWorker else [])),
+  refine ⟨(runLoop s pre).log ++ ((if s.wakeFirst then [.wake .stop] ++ s.workers.map (.stopWorker · g) else s.workers.map (.stopWorker · g) ++ [.wake .stop]) ++ (if g then s.workers.map .awaitWorker else [])),
     droppedAcks post, ?_, ?_, ?_⟩
   · rw [hl]; simp [stopEvs, ackEv]
   · simp [droppedAcks]
@@ -277,9 +305,9 @@ theorem second_stop_resolves (s : St) (cs : List Cmd) (hret : (runLoop s cs).ret
 /-- **A dropped stop future still stops the server**: `ServerHandle::stop` puts the command into the
 channel when it is *called*; the returned future only waits for the ack.  Whatever other calls are
 made before or after, the server handles a `Stop` and `run` returns. -/
-theorem dropped_future_still_stops (n : Nat) (before after : List Call) (g : Bool)
+theorem dropped_future_still_stops (wf : Bool) (n : Nat) (before after : List Call) (g : Bool)
     (hk : ∀ c ∈ before ++ after, ∀ idx, c = .faulted idx → idx < n) :
-    (serve n (before ++ .stop g :: after)).returned = true := by
+    (serve wf n (before ++ .stop g :: after)).returned = true := by
   unfold serve
   have hcalls : ∀ (cs : List Call) (y : Sys), ∃ new, (calls y cs).cmds = y.cmds ++ new ∧
       (∀ c ∈ cs, c = .stop g → ∃ a, Cmd.stop g (some a) ∈ new) ∧
@@ -318,11 +346,11 @@ theorem dropped_future_still_stops (n : Nat) (before after : List Call) (g : Boo
   · cases h
   · exact Or.inr h
 
-example : (serve 2 [.pause, .stop true, .resume, .stop false]).log =
-    [.wake .pause, .ack 0, .stopWorker 0 true, .stopWorker 1 true, .wake .stop, .awaitWorker 0, .awaitWorker 1, .joinAccept, .ack 1,
+example : (serve true 2 [.pause, .stop true, .resume, .stop false]).log =
+    [.wake .pause, .ack 0, .wake .stop, .stopWorker 0 true, .stopWorker 1 true, .awaitWorker 0, .awaitWorker 1, .joinAccept, .ack 1,
      .ackDropped 2, .ackDropped 3, .returned] := by decide
-example : (serve 1 [.signal .Int]).log = [.stopWorker 0 false, .wake .stop, .joinAccept, .returned] := by decide
-example : (serve 1 [.signal .Term]).log = [.stopWorker 0 true, .wake .stop, .awaitWorker 0, .joinAccept, .returned] := by decide
+example : (serve true 1 [.signal .Int]).log = [.wake .stop, .stopWorker 0 false, .joinAccept, .returned] := by decide
+example : (serve false 1 [.signal .Term]).log = [.stopWorker 0 true, .wake .stop, .awaitWorker 0, .joinAccept, .returned] := by decide
 
 end server
 end ActixNet.C06
